@@ -136,6 +136,58 @@ func runEngineA(t *testing.T, p *Profile, runSeed uint64, rf *ReplayFile) *RunOu
 			out.Other = append(out.Other, v)
 		}
 	}
+	if len(out.Violations) > 0 {
+		// Does the violation need an interleaving? Re-run the same operations strictly one after the other under
+		// the default schedule (no concurrent operations, run-to-block, no holds) and record whether a violation
+		// of the same class appears there too. The answer is a feature of the fingerprint ("sched"): it separates
+		// a defect any sequential history shows from one that only a race between handlers produces.
+		seq := clonePlan(plan)
+		seq.Cfg.Strategy, seq.Cfg.HoldPct, seq.Cfg.ArmMode, seq.Cfg.PreemptPct = 0, 0, 0, 0
+		for i := range seq.Ops {
+			seq.Ops[i].Concurrent = false
+		}
+		sres := RunPlan(t, seq, ReplayTape(nil))
+		inSeq := map[string]bool{}
+		sall := universalChecks(sres)
+		if p.Check != nil {
+			sall = append(sall, p.Check(sres)...)
+		}
+		// two violations are "the same" here when property, class and the cause-like features agree (features that
+		// describe the incidental shape of the history, such as the session's origin, are ignored)
+		causeLike := []string{"cause", "why", "nolocal", "first", "which", "how", "code", "type", "was", "path", "what", "state", "left_open", "request", "over_max_qos", "sign", "kind"}
+		key := func(v Violation) string {
+			k := v.Property + "/" + v.Class
+			if p.Name == "C27" && v.Class == "panic" {
+				k = "C28/panic"
+			}
+			for _, f := range causeLike {
+				if x, ok := v.Features[f]; ok {
+					k += "|" + f + "=" + x
+				}
+			}
+			return k
+		}
+		for _, v := range sall {
+			if p.Name == "C27" && v.Property == "C28" && v.Class == "panic" {
+				v.Property = "C27"
+			}
+			inSeq[key(v)] = true
+		}
+		for i := range out.Violations {
+			v := &out.Violations[i]
+			f := map[string]string{}
+			for k, x := range v.Features {
+				f[k] = x
+			}
+			if inSeq[key(*v)] {
+				f["sched"] = "any"
+			} else {
+				f["sched"] = "interleaving"
+			}
+			v.Features = f
+		}
+		out.Stats.Steps += sres.Stats.Steps
+	}
 	if p.Relevant != nil {
 		out.Relevant, out.Probes = p.Relevant(res)
 	} else {
@@ -406,7 +458,9 @@ func ReplayMain(t *testing.T) {
 	}
 	if !rep {
 		fmt.Println("NOT-REPRODUCED")
-		for _, v := range o.Violations {
+	}
+	for _, v := range o.Violations {
+		if !matches(v, rf.Violation) {
 			fmt.Println("OTHER-VIOLATION", v.Fingerprint())
 		}
 	}
